@@ -12,6 +12,9 @@
 (*   up      Host.is_up of every host: "T" True, "F" False, "N" None          *)
 (*   dist    the wrapped policy's distance() of every host                   *)
 (*   shuffle TokenAwarePolicy.shuffle_replicas                               *)
+(*   sks/qks the session's working keyspace and the keyspace the statement   *)
+(*           names ("none", "a" with replicas reps, "b" with replicas reps2) *)
+(*   hasKey  the statement carries a routing key                             *)
 (*                                                                           *)
 (*   TokenAwarePlan = the replicas that are up and LOCAL, in reps order (any *)
 (*   order when shuffling), followed by the child plan minus those already   *)
@@ -29,7 +32,10 @@
 EXTENDS Naturals, Sequences, FiniteSets, TLC
 
 CONSTANTS N,         \* hosts 1..N
-          MaxReps    \* at most this many replicas
+          MaxReps,   \* at most this many replicas
+          SessionKs, \* working keyspaces of the session to enumerate: subset of {"none", "a", "b"}
+          StmtKs,    \* keyspaces the statement names: subset of {"none", "a", "b"}
+          KeyChoices \* subset of BOOLEAN: does the statement carry a routing key
 
 H == 1..N
 Dist == {"LOCAL", "REMOTE", "IGNORED"}
@@ -44,19 +50,34 @@ HeadOf(reps, up, dist) == LET Elig(r) == up[r] = "T" /\ dist[r] = "LOCAL" IN Sel
 TailOf(hd, child) == LET Fresh(h) == ~InSeq(hd, h) IN SelectSeq(child, Fresh)
 TokenAwarePlan(reps, child, up, dist) == LET hd == HeadOf(reps, up, dist) IN hd \o TailOf(hd, child)
 
-VARIABLES reps, child, up, dist, shuffle, head, tail
-vars == <<reps, child, up, dist, shuffle, head, tail>>
+\* Which keyspace's replicas count (make_query_plan 363-367): the keyspace the STATEMENT names, and only when it
+\* names none the session's working keyspace.  Keyspace "a" has the replica list reps, keyspace "b" (a keyspace
+\* with other replication settings) the list reps2 for the same key.  Without routing key, or without any
+\* keyspace, the child plan is used as it is.
+EffectiveKs(sks, qks) == IF qks # "none" THEN qks ELSE sks
+RepsIn(ks, ra, rb) == IF ks = "a" THEN ra ELSE IF ks = "b" THEN rb ELSE <<>>
+
+VARIABLES reps, child, up, dist, shuffle, head, tail,
+          reps2,     \* replicas of the same key in keyspace "b"
+          sks, qks,  \* session's working keyspace / statement's keyspace
+          hasKey     \* the statement has a routing key
+vars == <<reps, child, up, dist, shuffle, head, tail, reps2, sks, qks, hasKey>>
+
+Routed == hasKey /\ EffectiveKs(sks, qks) # "none"
+EffReps == IF Routed THEN RepsIn(EffectiveKs(sks, qks), reps, reps2) ELSE <<>>
 
 Init ==
+    /\ sks \in SessionKs /\ qks \in StmtKs /\ hasKey \in KeyChoices
     /\ reps \in DistinctSeqs(H, MaxReps)
+    /\ reps2 \in (IF "b" \in SessionKs \cup StmtKs THEN DistinctSeqs(H, MaxReps) ELSE {<<>>})
     /\ up \in [H -> UpVals]
-    /\ \A h \in H \ RangeOf(reps) : up[h] = "T"                       \* is_up of a non-replica is never read
+    /\ \A h \in H \ (RangeOf(reps) \cup RangeOf(reps2)) : up[h] = "T"   \* is_up of a non-replica is never read
     /\ dist \in [H -> Dist]
     /\ child \in DistinctSeqs(H, N)
     /\ \A h \in H : h \in RangeOf(child) => dist[h] # "IGNORED"       \* a plan never lists an ignored host
-    /\ \A h \in H \ (RangeOf(reps) \cup RangeOf(child)) : dist[h] = "IGNORED"   \* irrelevant: canonical value
+    /\ \A h \in H \ (RangeOf(reps) \cup RangeOf(reps2) \cup RangeOf(child)) : dist[h] = "IGNORED"   \* irrelevant: canonical value
     /\ shuffle \in BOOLEAN
-    /\ head = HeadOf(reps, up, dist)
+    /\ head = HeadOf(EffReps, up, dist)
     /\ tail = TailOf(head, child)
 
 Next == UNCHANGED vars
@@ -65,23 +86,33 @@ Spec == Init /\ [][Next]_vars
 -----------------------------------------------------------------------------
 plan == head \o tail
 
-TypeOK == plan = TokenAwarePlan(reps, child, up, dist)
+TypeOK == plan = TokenAwarePlan(EffReps, child, up, dist)
 NoRepeat == NoDup(plan)
 ChildCovered == RangeOf(child) \subseteq RangeOf(plan)
 ExactHosts == RangeOf(plan) = RangeOf(child) \cup RangeOf(head)
 HeadIsLiveLocalReplicas ==
-    RangeOf(head) = {r \in RangeOf(reps) : up[r] = "T" /\ dist[r] = "LOCAL"}
+    RangeOf(head) = {r \in RangeOf(EffReps) : up[r] = "T" /\ dist[r] = "LOCAL"}
 HeadInRingOrder ==
     \A i, j \in 1..Len(head) : i < j =>
-        \E a, b \in 1..Len(reps) : a < b /\ reps[a] = head[i] /\ reps[b] = head[j]
+        \E a, b \in 1..Len(EffReps) : a < b /\ EffReps[a] = head[i] /\ EffReps[b] = head[j]
 TailInChildOrder ==
     \A i, j \in 1..Len(tail) : i < j =>
         \E a, b \in 1..Len(child) : a < b /\ child[a] = tail[i] /\ child[b] = tail[j]
 
+\* the statement's keyspace decides whenever it names one; the session's only otherwise; no key or no keyspace:
+\* the wrapped policy's plan unchanged
+StatementKeyspaceWins ==
+    /\ (hasKey /\ qks # "none") => head = HeadOf(RepsIn(qks, reps, reps2), up, dist)
+    /\ (hasKey /\ qks = "none" /\ sks # "none") => head = HeadOf(RepsIn(sks, reps, reps2), up, dist)
+    /\ ~Routed => plan = child
+
 \* vacuity witnesses (expected to be VIOLATED)
+Witness_StatementOverridesSession ==
+    ~(hasKey /\ sks = "a" /\ qks = "b" /\ head # HeadOf(reps, up, dist))
+Witness_SessionKeyspaceUsed == ~(hasKey /\ sks = "b" /\ qks = "none" /\ head # <<>>)
 Witness_DownLocalReplicaInChild ==
-    ~(\E r \in RangeOf(reps) : up[r] # "T" /\ dist[r] = "LOCAL" /\ r \in RangeOf(child))
+    ~(Routed /\ \E r \in RangeOf(EffReps) : up[r] # "T" /\ dist[r] = "LOCAL" /\ r \in RangeOf(child))
 Witness_RemoteReplicaInChild ==
-    ~(\E r \in RangeOf(reps) : up[r] = "T" /\ dist[r] = "REMOTE" /\ r \in RangeOf(child))
+    ~(Routed /\ \E r \in RangeOf(EffReps) : up[r] = "T" /\ dist[r] = "REMOTE" /\ r \in RangeOf(child))
 Witness_TwoLiveLocalReplicas == ~(Len(head) >= 2 /\ shuffle)
 =============================================================================
